@@ -222,6 +222,17 @@ func corpus(thorough bool) []caseT {
 		`func f(a=[1], b={}) { a }`,
 		`func f(a, b=[1], c={}) { a }; 1`,
 		`s := {3, 1, 2}; [s, string(s), len(s)]`,
+		`s := {2.5, 1.5, 0.5, 3.5}; [s, string(s)]`,
+		`s := {1.5, 0.5}; for v := range s { print(v) }; list(s)`,
+		`s := {true, false}; [s, list(s)]`,
+		`s := {1, 1.5, "a", true, 2.5, "b", 2}; [string(s), list(s)]`,
+		`a, b := {1.5, 0.5}; [a, b]`,
+		`json.marshal({2.5, 0.5})`,
+		`s := {byte(3), byte(1)}; [s, list(s)]`,
+		`s := {nil, 1}; string(s)`,
+		`sorted({2.5, 1.5, 0.5})`,
+		`m := {"k": {0.5, 1.5}}; print(m); m`,
+		`s := set([0.25, 0.75, 0.5]); it := iter(s); [it.next(), it.next(), it.next()]`,
 		`s := {"b", "a"}; for v := range s { print(v) }`,
 		`m := {"z": 1, "y": 2, "x": 3}; for k, v := range m { print(k, v) }; [m.keys(), m.values(), m.items()]`,
 		`m := {"b": [1, {"d": 1, "c": 2}], "a": {3, 1}}; print(m); string(m)`,
